@@ -194,13 +194,89 @@ class C10(Check):
 
     def strategy(self, tier):
         a, c = asm_strategy(), cxx_strategy()
+        # hand-written .eh_frame: FDEs whose pc-begin is relocated against a *named function symbol* at a non-zero
+        # offset of its section (gas and LLVM always emit section symbol + addend for .cfi-generated FDEs)
+        h = st.fixed_dictionaries({
+            "flavour": st.just("handfde"),
+            "pads": st.lists(st.sampled_from([0, 1, 3, 16, 29, 64]), min_size=2, max_size=5),
+            "local": st.lists(st.booleans(), min_size=5, max_size=5),
+            "hdr": st.sampled_from([True, True, False]),
+            "gc": st.booleans(),
+            "kind": st.sampled_from(["exe", "pie", "shared"]),
+            "threads": st.sampled_from([0, 1, 4]),
+        })
         # 6 assembly cases per C++ case (one_of would give 1:1; the C++ flavour costs ~10x more)
-        return st.integers(0, 6).flatmap(lambda k: c if k == 0 else a)
+        return st.integers(0, 7).flatmap(lambda k: c if k == 0 else h if k == 7 else a)
 
     def run_case(self, case, ctx):
         if case["flavour"] == "asm":
             return self.run_asm(case, ctx)
+        if case["flavour"] == "handfde":
+            return self.run_handfde(case, ctx)
         return self.run_cxx(case, ctx)
+
+    def run_handfde(self, case, ctx):
+        d = ctx.dir
+        n = len(case["pads"])
+        L = ["    .text", "    .globl _start", "_start:"]
+        for i in range(n):
+            L.append(f"    call hf{i}")
+        L += ["    ret", '    .section .text.hf,"ax",@progbits']
+        for i, pad in enumerate(case["pads"]):
+            L.append(f"    .skip {pad}, 0x90")
+            if not case["local"][i]:
+                L.append(f"    .globl hf{i}")
+            L += [f"    .type hf{i},@function", f"hf{i}:", f"    mov ${i}, %eax", "    ret", f"    .size hf{i}, .-hf{i}", f".Lend{i}:"]
+        # CIE: version 1, "zR", code align 1, data align -8, RA 16, augmentation data: pcrel|sdata4; def_cfa rsp+8; offset ra
+        L += ['    .section .eh_frame,"a",@progbits', ".Lcie:", "    .long .Lcie_end - .Lcie - 4", "    .long 0", "    .byte 1",
+              '    .asciz "zR"', "    .uleb128 1", "    .sleb128 -8", "    .byte 16", "    .uleb128 1", "    .byte 0x1b",
+              "    .byte 0x0c, 7, 8", "    .byte 0x90, 1", "    .balign 8", ".Lcie_end:"]
+        for i in range(n):
+            L += [f".Lfde{i}:", f"    .long .Lfde{i}_end - .Lfde{i} - 4", f"    .long . - .Lcie", f"    .long hf{i} - .",
+                  f"    .long .Lend{i} - hf{i}", "    .uleb128 0", "    .balign 8", f".Lfde{i}_end:"]
+        L.append('    .section .note.GNU-stack,"",@progbits')
+        slow.asm("\n".join(L) + "\n", "hf.o", cwd=d)
+        funcs = {f"hf{i}" for i in range(n)}
+        res = {}
+        for who in ("ld", "wild"):
+            args = ["hf.o", "-o", f"out.{who}", "--eh-frame-hdr" if case["hdr"] else "--no-eh-frame-hdr",
+                    "--gc-sections" if case["gc"] else "--no-gc-sections"]
+            if case["kind"] == "pie":
+                args = ["-pie"] + args
+            elif case["kind"] == "shared":
+                args = ["-shared"] + args
+            if who == "wild" and case["threads"]:
+                args.append(f"--threads={case['threads']}")
+            r = slow.link(who, args, cwd=d)
+            if r.timed_out:
+                raise Inconclusive(f"{who} timed out")
+            if r.rc != 0:
+                if who == "ld":
+                    raise Discard("GNU ld rejects: " + r.err.strip().split("\n")[-1][:60])
+                if r.rc < 0 or "panicked at" in r.err:
+                    raise Violation("wild-crash", f"wild crashed on hand-written unwind input: rc={r.rc} {r.err[-300:]}")
+                raise Violation("wild-rejects-valid-link", f"GNU ld links this case, wild fails: {r.err[-400:]}")
+            try:
+                parsed = eh_validate(f"{d}/out.{who}", who, case["hdr"], ctx.strict)
+                elf = parsed["elf"]
+                addr = {sy.name: sy.value for sy in elf.symtab() if sy.name in funcs and sy.shndx != E.SHN_UNDEF}
+                starts = {f.pc_begin for f in parsed["fdes"]}
+                for name in sorted(funcs):
+                    if name not in addr:
+                        raise Violation("retained-function-missing", f"{who}: {name} is called from _start but absent from the output")
+                    if addr[name] not in starts:
+                        raise Violation("retained-function-lost-fde", f"{who}: {name} at {addr[name]:#x} had an FDE in its input but no "
+                                        "FDE of the output begins there")
+            except Violation as v:
+                if who != "wild":
+                    raise Inconclusive(f"oracle self-check failed: validator flags {who} output: {v}")
+                raise
+            res[who] = parsed
+        nz = sum(1 for i, pad in enumerate(case["pads"]) if i > 0 or pad)
+        return {"nontrivial": bool(case["hdr"] and nz), "key": f"handfde|{case['kind']}|{case['hdr']}|{case['gc']}|{case['pads']}",
+                "classes": ["handfde:" + case["kind"], "hdr" if case["hdr"] else "nohdr", "gc" if case["gc"] else "nogc",
+                            "fde-reloc-vs-named-symbol"],
+                "counters": {"fdes_checked": len(res["wild"]["fdes"])}}
 
     # ------------------------------------------------------------------------------------------
     # asm flavour
